@@ -374,6 +374,10 @@ def render_ini(S, rng, ordered=None):
     return "\n".join(lines)
 
 
+NOT_JUDGED = "<not judged>"
+KNOWN_FAMILIES = ["Red Hat Enterprise Linux", "Red Hat Enterprise Linux Server", "Red Hat Enterprise Linux Client",
+                  "Red Hat Enterprise Linux Workstation", "CentOS", "CentOS Linux", "EulerOS", "Subscription Asset Manager",
+                  "Red Hat Storage", "JBEAP", "Red Hat Storage Software Appliance", "Fedora Core", "Fedora"]
 HACK_NAMES = ("Red Hat", "Fedora", "CentOS", "EulerOS", "Subscription Asset Manager", "JBEAP")
 
 
@@ -386,6 +390,13 @@ def treeinfo_0_0(D, rng):
     version = D["release"]["version"]
     if not version.replace(".", "").isdigit() or version.startswith(".") or version.endswith(".") or ".." in version:
         version = "2.1"
+    known_family = None
+    if D.get("legacy_known_family"):
+        # the product families the pre-productmd reader has special cases for.  How it NAMES them is code, not documentation:
+        # release name / short (and the version when the file spells it 'x.y-Beta') are not judged for these files -
+        # everything else is, and so is the whole conversion cycle (current header, identical reload, identical second write)
+        known_family = name = D["legacy_known_family"]
+        version = D["release"]["version"]
     arch = D["tree"]["arch"]
     top = sorted(D["variants"], key=lambda x: x["uid"])[0]
     uid = top["uid"] if "-" not in top["uid"] else top["id"]
@@ -453,7 +464,8 @@ def treeinfo_0_0(D, rng):
     else:
         paths["packages"], paths["repository"] = pk_exp, repo_exp
     paths["identity"] = ident
-    E = {"release": {"name": name, "short": "", "version": version, "is_layered": False},
+    E = {"release": {"name": name if known_family is None else NOT_JUDGED, "short": "" if known_family is None else NOT_JUDGED,
+                     "version": version, "is_layered": False},
          "base_product": {"name": None, "short": None, "version": None},
          "tree": {"arch": arch, "build_timestamp": exact_int(stamp), "platforms": sorted(platforms)},
          "variants": [{"id": uid.split("-")[-1], "uid": uid, "name": uid.split("-")[-1], "type": "variant", "parent": None,
